@@ -442,6 +442,14 @@ func (g *functionGenerator) genInstruction(inst ssa.Instruction) (insts []wat.In
 					panic("Type not match")
 				}
 				s = append(s, v.value.EmitPop()...)
+				if g.module.RcDisable && (g.none_rc_registers == nil || !g.none_rc_registers[v.value]) {
+					// The register was created earlier by a forward reference (a phi in a
+					// loop header), outside the rc_disable window, so it is reference
+					// counted and released like any other; the value generated inside the
+					// window was pushed without a retain. Retain it so the register owns it.
+					s = append(s, v.value.EmitPush()...)
+					s = append(s, v.value.EmitPopNoRelease()...)
+				}
 			} else {
 				nv := g.addRegister(t)
 				g.locals_map[inst] = valueWrap{value: nv}
